@@ -898,35 +898,67 @@ func mayAliasMemory(t types.Type) bool {
 
 // contractSignature: the text of a function's contract clauses ("" if it has none or cannot be shared);
 // functions with equal signatures can be called through one modular call.
-func (p *Program) contractSignature(c *ssa.Function) string {
-	{
-		con := p.contractFor(c)
-		if con == nil || con.Inline || len(c.FreeVars) > 0 {
+// boundTarget: for a bound-method wrapper (`x.m` used as a value) the method it calls, else nil
+func boundTarget(c *ssa.Function) *ssa.Function {
+	if !strings.HasSuffix(c.Name(), "$bound") || len(c.FreeVars) != 1 {
+		return nil
+	}
+	for _, b := range c.Blocks {
+		for _, in := range b.Instrs {
+			if call, ok := in.(*ssa.Call); ok {
+				return call.Call.StaticCallee()
+			}
+		}
+	}
+	return nil
+}
+
+// contractSignature: the text of a candidate's contract as far as a dynamic call site uses it. Candidates with the
+// same signature are handled by one modular call. With thin = true (dispatch over many candidates) the scoped
+// ensures and the exact panic conditions are not part of it (they are not assumed there either).
+func (p *Program) contractSignature(c *ssa.Function, thin bool) string {
+	target := c
+	prefix := ""
+	if len(c.FreeVars) > 0 {
+		t := boundTarget(c)
+		if t == nil || !thin {
 			return ""
 		}
-		var sb strings.Builder
-		for _, r := range con.Requires {
-			sb.WriteString("R:" + r.Src + ";")
+		target = t
+		prefix = "bound:"
+	}
+	con := p.contractFor(target)
+	if con == nil || con.Inline {
+		return ""
+	}
+	var sb strings.Builder
+	sb.WriteString(prefix)
+	for _, r := range con.Requires {
+		sb.WriteString("R:" + r.Src + ";")
+	}
+	for _, r := range con.Ensures {
+		if thin && len(r.Only) > 0 {
+			continue
 		}
-		for _, r := range con.Ensures {
-			sb.WriteString("E:" + r.Src + ";")
-		}
-		for _, r := range con.Modifies {
-			sb.WriteString("M:" + r.Src + ";")
-		}
-		for _, r := range con.PanicsWith {
-			sb.WriteString("PW:" + r.Src + ";")
-		}
+		sb.WriteString("E:" + r.Src + ";")
+	}
+	for _, r := range con.Modifies {
+		sb.WriteString("M:" + r.Src + ";")
+	}
+	for _, r := range con.PanicsWith {
+		sb.WriteString("PW:" + r.Src + ";")
+	}
+	if !thin {
 		for _, r := range con.Panics {
 			sb.WriteString("P:" + r.When.Src + ";")
 		}
-		for _, l := range con.Lets {
-			sb.WriteString("L:" + l.Name + l.Src + ";")
-		}
-		sb.WriteString(fmt.Sprint(con.NoPanic, len(con.Ghosts)))
-		for i, prm := range c.Params {
-			sb.WriteString(fmt.Sprint(i, prm.Name()))
-		}
-		return sb.String()
 	}
+	for _, l := range con.Lets {
+		sb.WriteString("L:" + l.Name + l.Src + ";")
+	}
+	sb.WriteString(fmt.Sprint(con.NoPanic, len(con.Ghosts)))
+	for i, prm := range target.Params {
+		sb.WriteString(fmt.Sprint(i, prm.Name()))
+	}
+	return sb.String()
 }
